@@ -158,7 +158,14 @@ func (pe *PolicyEngine) getPeer(p string) (k8s.Peer, error) {
 			}
 			nsObj, ok := pe.namespacesMap[namespaceStr]
 			if !ok {
-				return nil, errors.New(netpolerrors.NotFoundNamespace)
+				// no Namespace object was provided for the pod's namespace: as for connlist analysis,
+				// resolve it to a namespace object with the default (name) label only
+				if err := pe.resolveSingleMissingNamespace(namespaceStr); err != nil {
+					return nil, err
+				}
+				if nsObj, ok = pe.namespacesMap[namespaceStr]; !ok {
+					return nil, errors.New(netpolerrors.NotFoundNamespace)
+				}
 			}
 			res.NamespaceObject = nsObj
 			return res, nil
